@@ -204,7 +204,11 @@ def pipeline_cases(ctx, tab):
             ctx.branches["pipeline-skipped(scan-motor interval)"] += 1
             continue
         ch = r.get_calibrated_channels()
-        counts = r.get_counts()
+        # asked again (and after the counts were asked for): the same mapping must come back
+        r.get_counts()
+        ch_again = r.get_calibrated_channels()
+        # the counts the file was written with (sample 5*p + c of each line), not what the reader reports after calibrating
+        counts = np.asarray(b.samples, dtype=np.int64).reshape(n, -1, 5)
         t0 = int(np.asarray(r.get_times()[0]).astype("datetime64[ms]").astype(np.int64))
         y, d, _ = filegen.ms_to_ydm(t0)
         corr = Fraction(repr(1.0 - 0.0334 * math.cos(2.0 * math.pi * (d - 2) / 365.25)))
@@ -217,8 +221,7 @@ def pipeline_cases(ctx, tab):
                 cs = counts[line, :, chan]
                 px = rng.sample(range(cs.shape[0]), 6)
                 want, _ = oracle(tab[sat], chan, y, d, corr, [int(cs[p]) for p in px])
-                for p, w in zip(px, want):
-                    g = ch[line, p, chan]
+                for p, w, g in [(p_, w_, c_[line, p_, chan]) for c_ in (ch, ch_again) for p_, w_ in zip(px, want)]:
                     if (w is None) != bool(np.isnan(g)) or (w is not None and abs(float(w) - g) > 1e-7 * max(1.0, abs(float(w)))):
                         ctx.violation("%s pipeline, %d/%03d, channel index %d, line %d pixel %d: count %d -> %s, formula with the "
                                       "first line's date and distance factor gives %s" % (fmt, y, d, chan, line, p, int(cs[p]), g,
